@@ -1,7 +1,7 @@
 """Regenerate MANIFEST.json and baseline_obligations.json from properties_map + evidence."""
 import json, os, sys
-sys.path.insert(0, "/verif")
-os.chdir("/verif")
+sys.path.insert(0, os.path.dirname(os.path.dirname(os.path.abspath(__file__))))
+os.chdir(os.path.dirname(os.path.dirname(os.path.abspath(__file__))))
 from pvc import run as R
 R.load_contracts()
 import properties_map as PM
